@@ -44,7 +44,7 @@ def flatten_switch_body(body):
         k = n.get("k")
         if k == "CaseStmt":
             v = sc(n["c"][0])
-            out.append(("label", v.get("v") if v.get("k") == "IntegerLiteral" else v.get("n", "?"), n))
+            out.append(("label", v.get("v") if v.get("k") == "IntegerLiteral" else (n["cv"] if "cv" in n else v.get("n", "?")), n))
             rec(n["c"][1])
         elif k == "DefaultStmt":
             out.append(("label", "default", n))
